@@ -2,6 +2,7 @@ package main
 
 import (
 	"fmt"
+	"os"
 	"go/token"
 	"go/types"
 	"strings"
@@ -134,11 +135,24 @@ func (e *Engine) bind(fr *Frame, res ssa.Value, results []Val) {
 func (e *Engine) callFunction(st *State, fr *Frame, res ssa.Value, callee *ssa.Function, args []Val, at ssa.Instruction) bool {
 	name := callee.Name()
 	// spec builtins
-	if callee.Pkg != nil && (callee.Synthetic == "" || callee.Origin() != nil) {
+	if callee.Pkg != nil || callee.Origin() != nil {
 		switch {
 		case callee.Origin() != nil && callee.Origin().Name() == "old":
 			if res != nil {
 				fr.env[res] = e.evalOld(st, fr, at)
+			}
+			return false
+		case callee.Origin() != nil && callee.Origin().Name() == "allrefs":
+			fv := st.concretize(args[0][0])
+			id, _ := fv.ConstInt()
+			cl := e.closures[id]
+			if cl == nil {
+				engineErr("allrefs: body is not a closure literal")
+			}
+			bv := BVar("p", SInt)
+			body := e.evalSpecFn(st, cl.fn, append([]Val{{bv}}, cl.bindings...), []*Term{Le(IntC(1), bv)})
+			if res != nil {
+				fr.env[res] = Val{Forall([]*Term{bv}, Implies(Le(IntC(1), bv), body))}
 			}
 			return false
 		case (name == "forall" || name == "exists") && strings.HasSuffix(e.W.Fset.Position(callee.Pos()).Filename, "zz_verif_gen.go"):
@@ -199,6 +213,9 @@ func (e *Engine) callFunction(st *State, fr *Frame, res ssa.Value, callee *ssa.F
 		}
 		if onStack == 0 && fnSize(callee) <= limit && len(st.frames) < 24 {
 			e.Inlined[shortFn(callee)]++
+			if trace {
+				fmt.Fprintf(os.Stderr, "%s-> %s (paths %d, steps %d, pc %d)\n", strings.Repeat(" ", len(st.frames)), shortFn(callee), e.Paths, st.steps, len(st.pc))
+			}
 			nf := e.newFrame(callee, args)
 			// free variables of closures
 			for i, fv := range callee.FreeVars {
@@ -620,3 +637,5 @@ func (e *Engine) quantifier(st *State, fr *Frame, kind string, args []Val) *Term
 	}
 	return Exists([]*Term{bv}, And(rng, body))
 }
+
+var trace = os.Getenv("GOVC_TRACE") != ""
